@@ -15,10 +15,17 @@ Cs == IF Thorough THEN 1..4 ELSE 1..3
 Descs0 == SetToSeq(({"mse", "bce"} \X Ns \X {0} \X BOOLEAN) \cup ({"ce"} \X Ns \X Cs \X BOOLEAN))
 Bad == << <<"mse", <<2>>, <<3>>>>, <<"bce", <<2>>, <<3>>>>, <<"ce", <<2, 2>>, <<2, 3>>>>, <<"ce", <<2, 2>>, <<3, 2>>>>,
           <<"mse", <<>>, <<>>>>, <<"bce", <<2, 1>>, <<2, 1>>>>, <<"ce", <<2>>, <<2>>>>, <<"mse", <<2>>, <<2, 1>>>>, <<"ce", <<2, 2, 1>>, <<2, 2, 1>>>> >>
-Descs == MyCases(Descs0 \o [i \in DOMAIN Bad |-> <<"bad", Bad[i]>>])
+(* the same loss object used for batches of different sizes in turn *)
+Reuse == << <<"reuse", "mse", <<3>>, <<1>>>>, <<"reuse", "bce", <<2>>, <<4>>>>, <<"reuse", "ce", <<2, 3>>, <<3, 2>>>>, <<"reuse", "ce", <<1, 2>>, <<2, 2>>>> >>
+Descs == MyCases(Descs0 \o [i \in DOMAIN Bad |-> <<"bad", Bad[i]>>] \o Reuse)
 
 Build(d) ==
-  IF d[1] = "bad"
+  IF d[1] = "reuse"
+  THEN MkCase("c12", d[2] \o "-reused", <<In("p", d[3], TRUE), In("t", d[3], FALSE), In("q", d[4], FALSE), In("u", d[4], FALSE)>>,
+              <<"prob,unit", "prob,targ01", "prob,unit", "prob,targ01">>,
+              <<Ins(d[2], [inst |-> 1, dim |-> 0], <<1, 2>>), Ins(d[2], [inst |-> 1, dim |-> 0], <<3, 4>>), Ins(d[2], [inst |-> 1, dim |-> 0], <<1, 2>>)>>,
+              <<5, 6, 7>>, 0, TRUE) @@ [props |-> <<"nonneg", "finite">>]
+  ELSE IF d[1] = "bad"
   THEN MkCase("c12", d[2][1], <<In("p", d[2][2], FALSE), In("t", d[2][3], FALSE)>>, <<"any", "any">>,
               <<Ins(d[2][1], NoPar, <<1, 2>>)>>, <<>>, 0, TRUE)
   ELSE LET dims == IF d[1] = "ce" THEN <<d[2], d[3]>> ELSE <<d[2]>>
